@@ -14,6 +14,7 @@ import (
 	"math/rand"
 	"net"
 	"net/netip"
+	"runtime/debug"
 	"strconv"
 	"strings"
 	"sync"
@@ -665,6 +666,55 @@ func waitCh(ch <-chan struct{}, d time.Duration) bool {
 	case <-time.After(d):
 		return false
 	}
+}
+
+// ---------------------------------------------------------------------------------------------------------------
+// panics of the code under test
+// ---------------------------------------------------------------------------------------------------------------
+
+type panicInfo struct {
+	Msg   string
+	Where string // top frame inside github.com/Jigsaw-Code/outline-ss-server, "service/file.go:line (func)"
+}
+
+// guard runs f the way service.StreamServe runs a connection handler: a panic raised while the code under test works
+// for this connection is recovered and described.  It is an OBSERVATION about the server (this client was not
+// served), never a failure of the harness.
+func guard(f func()) (pi *panicInfo) {
+	defer func() {
+		if r := recover(); r != nil {
+			pi = &panicInfo{Msg: fmt.Sprint(r), Where: repoFrame(string(debug.Stack()))}
+		}
+	}()
+	f()
+	return nil
+}
+
+const repoModule = "github.com/Jigsaw-Code/outline-ss-server/"
+
+func repoFrame(stack string) string {
+	lines := strings.Split(stack, "\n")
+	for i := 0; i+1 < len(lines); i++ {
+		fn := strings.TrimSpace(lines[i])
+		if !strings.HasPrefix(fn, repoModule) {
+			continue
+		}
+		file := strings.TrimSpace(lines[i+1])
+		if j := strings.Index(file, " +0x"); j > 0 {
+			file = file[:j]
+		}
+		for _, dir := range []string{"/service/", "/net/", "/prometheus/", "/ipinfo/", "/cmd/"} {
+			if j := strings.LastIndex(file, dir); j >= 0 {
+				file = file[j+1:]
+				break
+			}
+		}
+		if j := strings.LastIndex(fn, "("); j > 0 {
+			fn = fn[:j] // drop the argument list
+		}
+		return file + " (" + strings.TrimPrefix(fn, repoModule) + ")"
+	}
+	return "(no frame of the repository on the stack)"
 }
 
 // ---------------------------------------------------------------------------------------------------------------
